@@ -110,6 +110,15 @@ func init() {
 					handlerUnder = append([]string(nil), e.guards...)
 				case (e.kind == "go" || e.kind == "defer") && (e.callee == "p3" || strings.Contains(e.text, "p3(")):
 					order = append(order, e.kind+"-handler")
+				case e.kind == "ret" && e.depth > 0 && !e.inClosure && strings.HasPrefix(e.text, "status.Error") && w.propagated(e.via):
+					// a status returned by an unexported helper whose result Stream hands on as its own
+					// (`if err := g.admit(…); err != nil { return err }`, `return helper(…)`): extract-method does
+					// not change the order of the interceptor's effects
+					if m := c16statusCode.FindStringSubmatch(e.text); m != nil {
+						order = append(order, "status:"+m[1])
+					} else {
+						order = append(order, "status:?")
+					}
 				case e.kind == "ret" && e.depth == 0 && strings.HasPrefix(e.text, "status.Error"):
 					flow = append(flow, e.line())
 					if m := c16statusCode.FindStringSubmatch(e.text); m != nil {
@@ -455,8 +464,47 @@ func init() {
 					}
 					return true
 				})
-				if found != 1 {
-					x.fail("GetGRPCDirector: expected one function literal, found %d", found)
+				if found == 0 {
+					// not a closure: the function hands out a method value or a function of the package
+					// (`return d.direct`); its body is the director
+					ast.Inspect(fd.Body, func(n ast.Node) bool {
+						rs, ok := n.(*ast.ReturnStmt)
+						if !ok {
+							return true
+						}
+						for _, r := range rs.Results {
+							name := lastName(r)
+							if name == "" {
+								continue
+							}
+							callee := x.anyFuncDecl(dir, name)
+							if callee == nil || callee.Body == nil || seenFn["director."+name] {
+								continue
+							}
+							seenFn["director."+name] = true
+							rn := ""
+							if callee.Recv != nil && len(callee.Recv.List) == 1 && len(callee.Recv.List[0].Names) == 1 {
+								rn = callee.Recv.List[0].Names[0].Name
+							}
+							ps := map[string]bool{}
+							if callee.Type.Params != nil {
+								for _, fl := range callee.Type.Params.List {
+									for _, id := range fl.Names {
+										ps[id.Name] = true
+									}
+								}
+							}
+							if rn != "" {
+								ps[rn] = true
+							}
+							found++
+							visit("director", callee.Body, rn, nil, ps)
+						}
+						return true
+					})
+				}
+				if found == 0 {
+					shared = append(shared, "director: the function GetGRPCDirector hands out was not found")
 				}
 			}
 			sort.Strings(shared)
@@ -914,6 +962,7 @@ type ev struct {
 	depth     int  // 0 = the root function, > 0 inside an inlined helper
 	inClosure bool // inside a function literal
 	node      *ast.CompositeLit
+	via       []string // the inlined helpers the event lies in, outermost first
 }
 
 func (e ev) withGuards(s string) string {
@@ -943,10 +992,15 @@ type c16walk struct {
 	nclo     int
 	nrange   int
 	dialArgs int
+	via      []string
+	// prop["parent>child"]: the function parent ("" = the root) returns the value of its call to the helper
+	// child — as `return child(…)` or as `if err := child(…); err != nil { return err }` —, so what child returns
+	// is what parent returns
+	prop map[string]bool
 }
 
 func newC16Walk(x *X, dir string) *c16walk {
-	return &c16walk{x: x, dir: dir, onStack: map[string]bool{}}
+	return &c16walk{x: x, dir: dir, onStack: map[string]bool{}, prop: map[string]bool{}}
 }
 
 // roles: the result of the route lookup is one thing whether it comes from the interceptor's own helper or
@@ -969,7 +1023,31 @@ func (w *c16walk) emit(e ev) {
 	e.guards = append([]string(nil), w.guards...)
 	e.depth = w.depth
 	e.inClosure = w.closure > 0
+	e.via = append([]string(nil), w.via...)
 	w.evs = append(w.evs, e)
+}
+
+var c16helperCall = regexp.MustCompile(`^(?:[A-Za-z_][A-Za-z0-9_]*\.)?([a-z_][A-Za-z0-9_]*)\(`)
+
+func (w *c16walk) markReturned(name string) {
+	parent := ""
+	if len(w.via) > 0 {
+		parent = w.via[len(w.via)-1]
+	}
+	w.prop[parent+">"+name] = true
+}
+
+// propagated: every helper on the way from the root to the event hands its callee's result on as its own, so a
+// return inside the innermost one is a return of the root function.
+func (w *c16walk) propagated(via []string) bool {
+	parent := ""
+	for _, h := range via {
+		if !w.prop[parent+">"+h] {
+			return false
+		}
+		parent = h
+	}
+	return true
 }
 
 func (w *c16walk) root(fd *ast.FuncDecl) {
@@ -1158,10 +1236,16 @@ func (w *c16walk) stmt(s ast.Stmt) string {
 			if c, ok := r.(*ast.CallExpr); ok && w.inlinable(c) {
 				// the result of a helper that was walked in place: its own returns say what comes back
 				_ = n
+				w.markReturned(lastName(c.Fun))
 				rs = append(rs, "<inlined>")
 				continue
 			}
-			rs = append(rs, w.canon(r))
+			t := w.canon(r)
+			// a variable that holds a helper's result (`if err := helper(…); err != nil { return err }`)
+			if m := c16helperCall.FindStringSubmatch(t); m != nil && strings.HasSuffix(t, ")") && w.x.anyFuncDecl(w.dir, m[1]) != nil {
+				w.markReturned(m[1])
+			}
+			rs = append(rs, t)
 		}
 		kind := "ret"
 		w.emit(ev{kind: kind, text: strings.Join(rs, ", ")})
@@ -1480,9 +1564,11 @@ func (w *c16walk) call(c *ast.CallExpr) {
 			w.scopes = append(w.scopes, sc)
 			w.onStack[name] = true
 			w.depth++
+			w.via = append(w.via, name)
 			savedClosure := w.closure
 			w.block(callee.Body)
 			w.closure = savedClosure
+			w.via = w.via[:len(w.via)-1]
 			w.depth--
 			delete(w.onStack, name)
 			w.scopes = w.scopes[:len(w.scopes)-1]
